@@ -12,6 +12,19 @@
 //!                   MCSH chunks of the monolithic file (+ MCMT);
 //!   * _obj0       = MVER, MMDX, MMID, MWMO, MWID, MDDF, MODF + one header-less MCNK per tile holding
 //!                   the MCRF reference list split into MCRD / MCRW.
+//! Per-tile variants of the root seeds (all written by the serializer):
+//!   * tile 2   : no MCCV (flag 0x40 clear, ofs_mccv 0) while every other tile has vertex colours;
+//!   * tile 17  : MCRD + MCRW instead of MCRF, so that ofs_refs points at an MCRD inside a root MCNK;
+//!   * tile 100 : flag 0x200 (high_res_holes): the parser ignores ofs_height / ofs_normal and scans the sub-chunk
+//!                sequence for MCVT / MCNR; MCRW only (ofs_refs points at an MCRW); MCLQ type Ocean (flag 0x08);
+//!   * tile 255 : MCLQ type Slime (flag 0x20); tile 17 is Magma (0x10), tile 0 Water (0x04).
+//! The "small-*" seeds are builder output with three MCNKs (tiles 0, 1, 2; MCIN padded with empty entries by the
+//! serializer) and exist for the chunk-presence variants of version / file-type detection:
+//!   * small-cata-mamp-root  : monolithic Cataclysm root, detected by MAMP (no MTXP, no blend mesh, no MH2O);
+//!   * small-wotlk-mtxf-root : WotLK detected by MTXF alone (no MH2O);
+//!   * small-mop-blend-root  : MoP detected by MBMH/MBBB/MBNV/MBMI (no MTXP);
+//!   * small-cata-tex0       : _tex0 derived from the Cataclysm file: no MTXP, version != MoP in parse_tex_adt;
+//!   * lod-stub              : the MVER chunk alone: no MCNK / MHDR / MTEX / placement chunk -> file type Lod.
 //! NOTE on this crate's MCNK header: it is 136 bytes (128 of the file format + 8 trailing padding
 //! bytes), written and read consistently by serializer.rs and header.rs; sub-chunks of a root MCNK
 //! therefore start at MCNK+8+136. Header offsets are relative to the start of the MCNK chunk
@@ -22,8 +35,8 @@ use std::io::Cursor;
 use wow_adt::chunks::blend_mesh::{MbbbChunk, MbbbEntry, MbmhChunk, MbmhEntry, MbmiChunk, MbnvChunk, MbnvVertex};
 use wow_adt::chunks::mcnk::{
     BlendBatch, LiquidType, LiquidVertex, McalChunk, McbbChunk, MccvChunk, McddChunk, MclqChunk, MclvChunk, MclyChunk,
-    MclyFlags, MclyLayer, McmtChunk, McnkChunk, McnkFlags, McnkHeader, McnrChunk, McrfChunk, McseChunk, McshChunk,
-    McvtChunk, SoundEmitter,
+    MclyFlags, MclyLayer, McmtChunk, McnkChunk, McnkFlags, McnkHeader, McnrChunk, McrdChunk, McrfChunk, McrwChunk, McseChunk,
+    McshChunk, McvtChunk, SoundEmitter,
 };
 use wow_adt::chunks::mh2o::{
     DepthOnlyVertex, HeightDepthVertex, HeightUvDepthVertex, HeightUvVertex, Mh2oAttributes, Mh2oChunk, Mh2oEntry,
@@ -42,6 +55,12 @@ pub fn seed_names(thorough: bool) -> Vec<String> {
         v.push("mop-root".into());
         v.push("cata-split-root".into());
         v.push("cata-obj0".into());
+        // three-MCNK files for the chunk-presence variants of version / file-type detection (see the module comment)
+        v.push("small-cata-mamp-root".into());
+        v.push("small-wotlk-mtxf-root".into());
+        v.push("small-mop-blend-root".into());
+        v.push("small-cata-tex0".into());
+        v.push("lod-stub".into());
     }
     v
 }
@@ -64,6 +83,8 @@ struct Spec {
     mclv: bool,
     /// only the sub-chunks that stay in a Cataclysm+ root file
     split_root: bool,
+    /// number of MCNK chunks handed to the builder (tiles 0..tiles)
+    tiles: usize,
 }
 
 fn spec(name: &str) -> Spec {
@@ -79,6 +100,7 @@ fn spec(name: &str) -> Spec {
         blend: false,
         mclv: false,
         split_root: false,
+        tiles: 256,
     };
     match name {
         "vanilla-root" => Spec { version: AdtVersion::VanillaLate, mccv: true, mclq: true, ..base },
@@ -108,6 +130,11 @@ fn spec(name: &str) -> Spec {
             split_root: true,
             ..base
         },
+        "small-cata-mamp-root" | "small-cata-tex0" | "lod-stub" => {
+            Spec { version: AdtVersion::Cataclysm, mccv: true, mfbo: true, mtxf: true, mamp: true, mclv: true, tiles: 3, ..base }
+        }
+        "small-wotlk-mtxf-root" => Spec { version: AdtVersion::WotLK, mccv: true, mclq: true, mfbo: true, mtxf: true, tiles: 3, ..base },
+        "small-mop-blend-root" => Spec { version: AdtVersion::MoP, mccv: true, mtxf: true, mamp: true, blend: true, mclv: true, tiles: 3, ..base },
         _ => wverif_common::tool_error(&format!("adt: unknown seed {name}")),
     }
 }
@@ -129,7 +156,12 @@ fn mcnk(i: usize, sp: &Spec) -> McnkChunk {
     let mut alpha = None;
     let mut shadow = None;
     let mut refs = None;
+    let (mut doodad_refs, mut wmo_refs) = (None, None);
     let (mut n_doodad_refs, mut n_map_obj_refs) = (0u32, 0u32);
+    if i == 100 {
+        // high_res_holes: MCVT / MCNR are found by scanning, whatever the serializer stores in ofs_height / ofs_normal
+        flags |= 0x200;
+    }
     if tex_side {
         if rich {
             let nl = if i == 1 { 2 } else { 4 };
@@ -147,26 +179,48 @@ fn mcnk(i: usize, sp: &Spec) -> McnkChunk {
             alpha = Some(McalChunk { data: (0..an).map(|k| ((k * 7 + i) % 256) as u8).collect() });
             shadow = Some(McshChunk { shadow_map: (0..512).map(|k| if k % 3 == 0 { 0xFF } else { 0x0F }).collect() });
             flags |= 0x01;
-            refs = Some(McrfChunk { references: vec![0, 2, 1, 0] });
-            n_doodad_refs = 3;
-            n_map_obj_refs = 1;
+            match i {
+                17 => {
+                    // the serializer points ofs_refs at the first of MCRD / MCRW when there is no MCRF
+                    doodad_refs = Some(McrdChunk { doodad_refs: vec![0, 2, 1] });
+                    wmo_refs = Some(McrwChunk { wmo_refs: vec![0] });
+                    n_doodad_refs = 3;
+                    n_map_obj_refs = 1;
+                }
+                100 => {
+                    wmo_refs = Some(McrwChunk { wmo_refs: vec![1] });
+                    n_map_obj_refs = 1;
+                }
+                _ => {
+                    refs = Some(McrfChunk { references: vec![0, 2, 1, 0] });
+                    n_doodad_refs = 3;
+                    n_map_obj_refs = 1;
+                }
+            }
         } else {
             layers = Some(MclyChunk { layers: vec![MclyLayer { texture_id: (i % 4) as u32, flags: MclyFlags { value: 0 }, offset_in_mcal: 0, effect_id: 0 }] });
         }
     }
     let liquid = if sp.mclq && rich && i != 1 {
-        flags |= if i == 17 { 0x10 } else { 0x04 };
+        // liquid type selector of the MCLQ parser: 0x04 water, 0x08 ocean, 0x10 magma, 0x20 slime
+        let (bit, ty) = match i {
+            17 => (0x10, LiquidType::Magma),
+            100 => (0x08, LiquidType::Ocean),
+            255 => (0x20, LiquidType::Slime),
+            _ => (0x04, LiquidType::Water),
+        };
+        flags |= bit;
         Some(MclqChunk {
             min_height: -2.0,
             max_height: 6.5,
             vertices: (0..81).map(|k| LiquidVertex { union_data: [k as u8, 0, 0, 255], height: 1.0 + (k % 9) as f32 * 0.5 }).collect(),
             tile_flags: [0x04; 64],
-            liquid_type: if i == 17 { LiquidType::Magma } else { LiquidType::Water },
+            liquid_type: ty,
         })
     } else {
         None
     };
-    let vertex_colors = if sp.mccv {
+    let vertex_colors = if sp.mccv && i != 2 {
         flags |= 0x40;
         Some(MccvChunk::default())
     } else {
@@ -220,8 +274,8 @@ fn mcnk(i: usize, sp: &Spec) -> McnkChunk {
         layers,
         materials: if mop_extras { Some(McmtChunk { material_ids: [1, 2, 0, 0] }) } else { None },
         refs,
-        doodad_refs: None,
-        wmo_refs: None,
+        doodad_refs,
+        wmo_refs,
         alpha,
         shadow,
         vertex_colors,
@@ -330,6 +384,47 @@ fn water() -> Mh2oChunk {
         c.entries[4] = mk(full(1), VertexDataArray::HeightUv(g1));
         c.entries[5] = mk(full(2), VertexDataArray::DepthOnly(g2));
     }
+    // entries 6 and 7: a vertex-format selector the parser does not know (5: < 42 but not 0..3; 60: >= 42, a LiquidObject
+    // id) together with a non-zero vertex data offset (the serializer writes whatever array it is handed); the parser
+    // seeks to the data and reads nothing
+    {
+        let i6 = inst(5, 5, 2, 2, 2, 2);
+        let mut g: Box<[Option<HeightDepthVertex>; 81]> = Box::new([None; 81]);
+        for z in 2..=4usize {
+            for x in 2..=4usize {
+                g[z * 9 + x] = Some(HeightDepthVertex { height: 10.5, depth: (x + z) as u8 });
+            }
+        }
+        c.entries[6] = Mh2oEntry {
+            header: hdr,
+            instances: vec![i6],
+            vertex_data: vec![Some(VertexDataArray::HeightDepth(g))],
+            exists_bitmaps: vec![Some(0xF)],
+            attributes: None,
+        };
+        let i7 = inst(100, 60, 0, 0, 1, 1);
+        let mut g: Box<[Option<DepthOnlyVertex>; 81]> = Box::new([None; 81]);
+        for z in 0..=1usize {
+            for x in 0..=1usize {
+                g[z * 9 + x] = Some(DepthOnlyVertex { depth: 9 });
+            }
+        }
+        c.entries[7] = Mh2oEntry {
+            header: hdr,
+            instances: vec![i7],
+            vertex_data: vec![Some(VertexDataArray::DepthOnly(g))],
+            exists_bitmaps: vec![None],
+            attributes: None,
+        };
+    }
+    // entry 8: attributes but no liquid layer
+    c.entries[8] = Mh2oEntry {
+        header: Mh2oHeader { layer_count: 0, ..hdr },
+        instances: vec![],
+        vertex_data: vec![],
+        exists_bitmaps: vec![],
+        attributes: Some(Mh2oAttributes { fishable: 0x0101_0101_0101_0101, deep: 1 }),
+    };
     // entry 255: LVF 3 (height + uv + depth) 2x1
     {
         let i0 = inst(19, 3, 3, 4, 2, 1);
@@ -382,7 +477,7 @@ fn monolithic(sp: &Spec) -> Vec<u8> {
             scale: 1024,
         });
     }
-    for i in 0..256 {
+    for i in 0..sp.tiles {
         b = b.add_mcnk_chunk(mcnk(i, sp));
     }
     if sp.mfbo {
@@ -531,11 +626,19 @@ fn obj0(mono: &[u8]) -> Vec<u8> {
         let mut pay = Vec::new();
         let nd = u32_at(mono, o + 8 + 16) as usize;
         let nw = u32_at(mono, o + 8 + 56) as usize;
-        if let Some(s) = mcnk_subs(mono, *o, *tot).iter().find(|s| s.2 == "MCRF") {
+        let subs = mcnk_subs(mono, *o, *tot);
+        if let Some(s) = subs.iter().find(|s| s.2 == "MCRF") {
             let p = &mono[s.0 + 8..s.0 + s.1];
             assert_eq!(p.len(), 4 * (nd + nw));
             pay.extend_from_slice(&chunk("MCRD", &p[..4 * nd]));
             pay.extend_from_slice(&chunk("MCRW", &p[4 * nd..]));
+        } else {
+            // tiles 17 and 100: the serializer already wrote MCRD / MCRW (tile 100: MCRW only)
+            for t in ["MCRD", "MCRW"] {
+                if let Some(s) = subs.iter().find(|s| s.2 == t) {
+                    pay.extend_from_slice(&mono[s.0..s.0 + s.1]);
+                }
+            }
         }
         out.extend_from_slice(&chunk("MCNK", &pay));
     }
@@ -604,7 +707,9 @@ fn term_fields(s: &mut Seed, tag: &str, o: usize, tot: usize) {
     }
 }
 
-fn mcnk_header_fields(s: &mut Seed, i: usize, o: usize, tot: usize) {
+/// `full` = every header field (tiles 0, 1 and the last one); otherwise only the selectors / offsets / counts of the
+/// per-tile variants of tiles 17 and 100 (flags, MCVT / MCNR offsets, the reference list, MCLQ).
+fn mcnk_header_fields(s: &mut Seed, i: usize, o: usize, tot: usize, full: bool) {
     let h = o + 8;
     let end = o + tot;
     let rd = |s: &Seed, rel: usize| s.u32_at(h + rel) as usize;
@@ -619,6 +724,19 @@ fn mcnk_header_fields(s: &mut Seed, i: usize, o: usize, tot: usize) {
     };
     let n = |f: &str| format!("MCNK[{i}].hdr.{f}");
     s.field(h, 4, "index", n("flags"));
+    if !full {
+        let refs = sub(s, 32);
+        s.field_ex(h + 16, 4, "count", n("n_doodad_refs"), refs, 4, None);
+        s.field_ex(h + 20, 4, "offset", n("ofs_height"), o, 1, None);
+        s.field_ex(h + 24, 4, "offset", n("ofs_normal"), o, 1, None);
+        s.field_ex(h + 32, 4, "offset", n("ofs_refs"), o, 1, None);
+        let nd = rd(s, 16);
+        s.field_ex(h + 56, 4, "count", n("n_map_obj_refs"), (refs + 4 * nd).min(end), 4, None);
+        s.field_ex(h + 96, 4, "offset", n("ofs_liquid"), o, 1, None);
+        let b = sub(s, 96);
+        s.field_ex(h + 100, 4, "bsize", n("size_liquid"), b, 1, None);
+        return;
+    }
     s.field(h + 4, 4, "index", n("ix"));
     s.field(h + 8, 4, "index", n("iy"));
     let b = sub(s, 28);
@@ -651,9 +769,9 @@ fn mcnk_header_fields(s: &mut Seed, i: usize, o: usize, tot: usize) {
     s.field(h + 124, 4, "index", n("unused"));
 }
 
-fn mcnk_sub_fields(s: &mut Seed, i: usize, subs: &[(usize, usize, String, usize)]) {
+fn mcnk_sub_fields(s: &mut Seed, i: usize, subs: &[(usize, usize, String, usize)], full: bool) {
     let find = |t: &str| subs.iter().find(|c| c.2 == t).map(|c| (c.0, c.1));
-    if let Some((o, tot)) = find("MCLY") {
+    if let (Some((o, tot)), true) = (find("MCLY"), full) {
         let mcal = find("MCAL").map(|c| c.0 + 8).unwrap_or(o + tot);
         let n = (tot - 8) / 16;
         for l in 0..n.min(4) {
@@ -675,6 +793,9 @@ fn mcnk_sub_fields(s: &mut Seed, i: usize, subs: &[(usize, usize, String, usize)
             }
         }
     }
+    if !full {
+        return;
+    }
     if let Some((o, tot)) = find("MCSE") {
         if tot >= 8 + 28 {
             s.field(o + 8, 4, "index", format!("MCNK[{i}]/MCSE[0].sound_entry_id"));
@@ -694,7 +815,8 @@ fn mcnk_sub_fields(s: &mut Seed, i: usize, subs: &[(usize, usize, String, usize)
 
 fn inventory(s: &mut Seed, mcnk_has_header: bool) {
     let len = s.bytes.len();
-    let keep = |t: &str, ord: usize, total: usize| t != "MCNK" || ord < 2 || ord + 1 == total;
+    // MCNK 17 and 100 carry the per-tile variants (module comment)
+    let keep = |t: &str, ord: usize, total: usize| t != "MCNK" || ord < 2 || ord + 1 == total || ord == 17 || ord == 100;
     let top = add_seq_sparse(s, "top", 0, len, vec![], &keep);
     let find = |t: &str| top.iter().find(|c| c.2 == t).map(|c| (c.0, c.1));
     let pay = |t: &str| find(t).map(|c| c.0 + 8);
@@ -772,8 +894,12 @@ fn inventory(s: &mut Seed, mcnk_has_header: bool) {
         let liquid: Vec<usize> = (0..nh).filter(|&k| s.u32_at(p + 12 * k + 4) != 0).collect();
         // every entry that has liquid (the seed has 8: each vertex format with a partial and a full-extent rectangle)
         let mut pick: Vec<usize> = liquid.iter().cloned().take(12).collect();
-        if let Some(e) = (0..nh).find(|k| !liquid.contains(k)) {
-            pick.push(e);
+        // entries without liquid: the first one with attributes only and the first empty one
+        let has_attr = |s: &Seed, k: usize| s.u32_at(p + 12 * k + 8) != 0;
+        for want in [true, false] {
+            if let Some(e) = (0..nh).find(|&k| !liquid.contains(&k) && has_attr(s, k) == want) {
+                pick.push(e);
+            }
         }
         for (rank, &k) in pick.iter().enumerate() {
             let e = p + 12 * k;
@@ -840,19 +966,29 @@ fn inventory(s: &mut Seed, mcnk_has_header: bool) {
         }
     }
     // MCNK 0, 1 and the last one: header fields and the nested sub-chunk sequence
-    for i in first_second_last(mcnks.len()) {
+    // MCNK 17 and 100 of a root file (the per-tile variants): the selector / offset / count fields of the header and the
+    // sub-chunk sequence (what scan_for_subchunk walks)
+    let mut tiles: Vec<(usize, bool)> = first_second_last(mcnks.len()).into_iter().map(|i| (i, true)).collect();
+    if mcnk_has_header {
+        for i in [17usize, 100] {
+            if i < mcnks.len() && !tiles.iter().any(|t| t.0 == i) {
+                tiles.push((i, false));
+            }
+        }
+    }
+    for (i, full) in tiles {
         let (o, tot) = mcnks[i];
         let all = |_: &str, _: usize, _: usize| true;
         if mcnk_has_header {
             if tot < 8 + MCNK_HDR {
                 continue;
             }
-            mcnk_header_fields(s, i, o, tot);
+            mcnk_header_fields(s, i, o, tot, full);
             let subs = add_seq_sparse(s, &format!("MCNK[{i}]"), o + 8 + MCNK_HDR, o + tot, vec![o + 4], &all);
-            mcnk_sub_fields(s, i, &subs);
+            mcnk_sub_fields(s, i, &subs, full);
         } else {
             let subs = add_seq_sparse(s, &format!("MCNK[{i}]"), o + 8, o + tot, vec![o + 4], &all);
-            mcnk_sub_fields(s, i, &subs);
+            mcnk_sub_fields(s, i, &subs, full);
         }
     }
 }
@@ -862,8 +998,10 @@ pub fn build(name: &str) -> Seed {
     let mono = monolithic(&sp);
     let (bytes, hdr) = match name {
         "cata-split-root" => (split_root(&mono), true),
-        "mop-tex0" => (tex0(&mono), false),
+        "mop-tex0" | "small-cata-tex0" => (tex0(&mono), false),
         "cata-obj0" => (obj0(&mono), false),
+        // the MVER chunk of the builder output alone
+        "lod-stub" => (top_chunks(&mono).iter().find(|c| c.2 == "MVER").map(|c| mono[c.0..c.0 + c.1].to_vec()).expect("MVER"), false),
         _ => (mono, true),
     };
     let mut s = Seed::new("adt", name, bytes);
